@@ -117,7 +117,8 @@ def run(ck):
             key = (kind, knob, cls)
             if fid is None and key in reported:
                 continue
-            reported.add(key)
+            if fid is None:      # a listed finding never hides a later unlisted violation of the same class
+                reported.add(key)
             ck.violation({"kind": kind, "finding": fid, "class": cls, "generator_class": knob, "values": vmap, "result": m[:1500],
                           "status": i[:300], "wgsl": unq(s[1:-1]), "how": how}, found_input=True)
         if len(ck.samples) < 3 and head == "agree" and vmap:
